@@ -74,8 +74,14 @@ func (w *World) ProduceTree(p *TreePlan, or Oracles) []*Produced {
 			}
 		}
 		txs := w.MakeTxs(pst, st.Txs, i)
-		res := w.Propose(parent, st.Skip, txs, nil)
-		ts := w.SlotTime(w.Blocks[parent], st.Skip)
+		skip := st.Skip
+		res := w.Propose(parent, skip, txs, nil)
+		for try := 0; try < 3 && res.Block != nil && w.Blocks[res.Block.Hash()] != nil; try++ {
+			// identical to an existing block (same parent, slot, proposer, content): use a later slot
+			skip++
+			res = w.Propose(parent, skip, txs, nil)
+		}
+		ts := w.SlotTime(w.Blocks[parent], skip)
 		if or.C15 {
 			want, ok := w.Tree.ScheduledValidator(pst, ts)
 			if !ok || want.PubKey != res.Validator {
@@ -101,6 +107,11 @@ func (w *World) ProduceTree(p *TreePlan, or Oracles) []*Produced {
 			}
 			return out
 		}
+		if _, dup := w.Blocks[res.Block.Hash()]; dup {
+			// same parent, slot, proposer and transactions: the identical block again
+			r.Count("blocks.identical_reproduced", 1)
+			continue
+		}
 		bst := w.Admit(res)
 		pr := &Produced{Hash: res.Block.Hash(), State: bst, Res: res, Txs: txs}
 		out = append(out, pr)
@@ -109,7 +120,7 @@ func (w *World) ProduceTree(p *TreePlan, or Oracles) []*Produced {
 		r.Count("blocks.produced", 1)
 		r.Count("txs.offered", len(txs))
 		r.Count("txs.included", len(res.Block.Transactions)-1)
-		if st.Back > 0 {
+		if st.Back != 0 {
 			r.Count("blocks.fork", 1)
 		}
 		if bst.Invalid != nil {
